@@ -342,6 +342,14 @@ def main(argv):
             cases.append({"i": len(cases), "variant": "comp" if j % 2 == 0 else "rts",
                           "plan": ["heapbase 200000000000", "sbrk cap %d" % (256 << 20)], "hist": h,
                           "meta": {"n": len(h), "sweep": sz, "faulty": False, "forced": False, "ops": []}})
+        # very large blocks: sections of 2^15 pages and more (the section header counts its pages)
+        for j, mb in enumerate((127, 128, 129, 200, 300)):
+            sz = mb << 20
+            h = ["cfg seed %d" % mb, "cfg livecap 1800", "a %d 0 e" % sz, "u", "a 100 0 e", "f 0", "u", "g", "u",
+                 "a %d 0 e" % (sz + 4096), "g", "f 1", "u", "a 900 0 e", "g", "u"]
+            cases.append({"i": len(cases), "variant": "comp" if j % 2 == 0 else "rts",
+                          "plan": ["heapbase 200000000000", "sbrk cap %d" % (2 << 30)], "hist": h,
+                          "meta": {"n": len(h), "huge": mb, "faulty": False, "forced": False, "ops": []}})
         # regression corpus: minimised histories of defects found earlier (fixed in /repo)
         import glob, json as _json
         for j, f in enumerate(sorted(glob.glob(os.path.join(vsim.VERIF, "findings", "C10-*", "*.json")))):
